@@ -6,10 +6,9 @@
   returns the code fragment, the jump targets being computed from the lengths of the parts.  `sp` is
   the static state-stack depth, `pv` the compiler's `self.pv` (the value is reached through a pointer).
 
-  Not modelled: named types.  `Compiler.tab` (compileOne: a type met again while it is being compiled
-  becomes OP_recurse) can only hit for a named type, because an unnamed type cannot contain itself;
-  json.Marshaler / TextMarshaler dispatch (tryCompileMarshaler) needs methods, i.e. a named type.
-  A `(lib _)` type compiles to `unsupported`, `raw` (json.RawMessage) to its OP_marshal.
+  Named struct types (`(lib Rec)`, `(lib Tree)`; `Enc.libStruct`) are compiled with `Compiler.tab` (see below).
+  Not modelled: json.Marshaler / TextMarshaler dispatch (tryCompileMarshaler) - it needs methods, i.e. a named type with
+  callbacks: such a `(lib _)` type compiles to `unsupported`, `raw` (json.RawMessage) to its OP_marshal.
   The field list of a struct is `Enc.keepList` - internal/resolver/fields.go is a copy of
   encoding/json's `typeFields`, after which `keepList` is written; the disassembly correspondence
   compares the outcome (names, order, options, offsets) on every generated struct type.
@@ -115,9 +114,45 @@ def fieldCode (co : COpts) (f : Field) (t : GoType) (cv ce : Nat → Program) (i
       [Instr.condTestc (vpc - 1), Instr.byte 44, Instr.key f.name] ++      -- :496-503
       val ++ [Instr.load]                                                  -- :514
 
+/-! ### `Compiler.tab` and named struct types.
+    `tab` is `Compiler.tab` (compiler.go:93): the types whose compilation is in progress (compileRec, :176, enters every
+    type); meeting one of them again is OP_recurse (compileOne, :130).  A type can be met inside itself only through a
+    NAMED type: `(lib NAME)` with `Enc.libStruct NAME = some fields` is a named Go struct type (go/harness types.go
+    `Rec`, `Tree`: recursive through a pointer, a slice and a map; `*Rec` contains `Rec` contains `*Rec`).  The test is
+    made where it can succeed - at the composite types; a scalar has nothing inside it.
+    The body of a named type is supplied by the parameter `lib` (`LibCode`), which `libK` below defines level by
+    level: each unfolding puts the name into `tab`, so as many levels as there are names suffice (`libLeft`). -/
+
 mutual
-/-- compileOne / compileRec / compileOps (compiler.go:129-231) for a type first met at position `pc` -/
-def code (co : COpts) (pc sp : Nat) (pv : Bool) : GoType → Program
+/-- identity of Go types as far as the universe distinguishes them -/
+def typeEq : GoType → GoType → Bool
+  | .bool, .bool | .f32, .f32 | .f64, .f64 | .str, .str | .num, .num | .bytes, .bytes | .raw, .raw | .any, .any => true
+  | .int a, .int b | .uint a, .uint b => a == b
+  | .sl a, .sl b | .ptr a, .ptr b => typeEq a b
+  | .arr n a, .arr m b => n == m && typeEq a b
+  | .map k a, .map l b => typeEq k l && typeEq a b
+  | .st fs, .st gs => fieldsEq fs gs
+  | .lib a, .lib b => a == b
+  | _, _ => false
+def fieldsEq : List (String × Option Bytes × GoType) → List (String × Option Bytes × GoType) → Bool
+  | [], [] => true
+  | (n, tg, t) :: fs, (m, ug, u) :: gs => n == m && tg == ug && typeEq t u && fieldsEq fs gs
+  | _, _ => false
+end
+
+/-- `self.tab[vt]` -/
+def tabHas (tab : List GoType) (T : GoType) : Bool := tab.any (typeEq T)
+
+/-- code of the named struct type `n` at position `pc`, depth `sp`, `tab` already holding the name; `none`: not a named struct -/
+abbrev LibCode := List GoType → String → Nat → Nat → Bool → Option Program
+
+/-- compiler.go:435: out of line when nested too deep, the program too long or the struct too wide -/
+def cutOff (co : COpts) (pc sp nfields : Nat) : Bool :=
+  decide (sp ≥ co.maxInlineDepth) || decide (pc ≥ maxIlbuf) || (decide (sp > 0) && decide (nfields ≥ maxFields))
+
+mutual
+/-- compileOne / compileRec / compileOps (compiler.go:129-231) for a type met at position `pc` -/
+def code (co : COpts) (lib : LibCode) (tab : List GoType) (pc sp : Nat) (pv : Bool) : GoType → Program
   | .bool => [.bool]
   | .int b => [intOp b]
   | .uint b => [uintOp b]
@@ -127,67 +162,96 @@ def code (co : COpts) (pc sp : Nat) (pv : Bool) : GoType → Program
   | .num => [.number]
   | .any => [.eface]                                  -- :673 compileInterface, no methods
   | .raw => [.marshal .raw]                           -- :147 json.RawMessage is a json.Marshaler
-  | .lib n => [.unsupported (.lib n)]
   | .bytes => [.isNil (pc + 3), .bin, .goto (pc + 4), .emptyArr]      -- :368 compileSlice, :373 IsSimpleByte
+  | .lib n =>
+    if tabHas tab (.lib n) then [.recurse (.lib n) pv]
+    else (lib (.lib n :: tab) n pc sp pv).getD [.unsupported (.lib n)]
   | .sl t =>
-    if isU8 t then [.isNil (pc + 3), .bin, .goto (pc + 4), .emptyArr]
+    if tabHas tab (.sl t) then [.recurse (.sl t) pv]
+    else if isU8 t then [.isNil (pc + 3), .bin, .goto (pc + 4), .emptyArr]
     else
       -- :380 compileSliceArray inside :233 compileNil
-      let c1 := code co (pc + 6) (sp + 1) true t
+      let c1 := code co lib (.sl t :: tab) (pc + 6) (sp + 1) true t
       let j := pc + 6 + c1.length
-      let c2 := code co (j + 2) (sp + 1) true t
+      let c2 := code co lib (.sl t :: tab) (j + 2) (sp + 1) true t
       let i := j + 2 + c2.length + 1
       [.isNil (i + 3), .byte 91, .isNil (i + 1), .save false, .sliceLen, .sliceNext i t] ++ c1 ++
         [.sliceNext i t, .byte 44] ++ c2 ++ [.goto j, .drop, .byte 93, .goto (i + 4), .emptyArr]
   | .arr n t =>
-    -- :402 compileArray
-    let f := fun pc' => code co pc' (sp + 1) pv t
-    let first := if n == 0 then [] else f (pc + 2) ++ [Instr.load]
-    [.byte 91, .save (n != 0)] ++ first ++ arrRest f (tsize t) (n - 1) 1 (pc + 2 + first.length) ++ [.drop, .byte 93]
+    if tabHas tab (.arr n t) then [.recurse (.arr n t) pv]
+    else
+      -- :402 compileArray
+      let f := fun pc' => code co lib (.arr n t :: tab) pc' (sp + 1) pv t
+      let first := if n == 0 then [] else f (pc + 2) ++ [Instr.load]
+      [.byte 91, .save (n != 0)] ++ first ++ arrRest f (tsize t) (n - 1) 1 (pc + 2 + first.length) ++ [.drop, .byte 93]
   | .ptr t =>
-    -- :244 compilePtr, :248 compilePtrBody
-    let b := code co (pc + 3) (sp + 1) true t
-    [.isNil (pc + 3 + b.length + 2), .save false, .deref] ++ b ++ [.drop, .goto (pc + 3 + b.length + 3), .null]
+    if tabHas tab (.ptr t) then [.recurse (.ptr t) pv]
+    else
+      -- :244 compilePtr, :248 compilePtrBody
+      let b := code co lib (.ptr t :: tab) (pc + 3) (sp + 1) true t
+      [.isNil (pc + 3 + b.length + 2), .save false, .deref] ++ b ++ [.drop, .goto (pc + 3 + b.length + 3), .null]
   | .map k t =>
-    -- :256 compileMap, :260 compileMapBody
-    let kc := keyCode k
-    let u := pc + 8 + kc.length
-    let v1 := code co (u + 2) (sp + 2) false t
-    let j := u + 2 + v1.length
-    let v := j + 3 + kc.length
-    let v2 := code co (v + 2) (sp + 2) false t
-    let i := v + 2 + v2.length + 1
-    [.isNil (i + 4), .byte 123, .isZeroMap (i + 2), .save false, .mapIter (.map k t), .save false, .mapCheckKey i, .mapWriteKey u] ++ kc ++
-      [.byte 58, .mapValueNext] ++ v1 ++ [.mapCheckKey i, .byte 44, .mapWriteKey v] ++ kc ++ [.byte 58, .mapValueNext] ++ v2 ++
-      [.goto j, .mapStop, .drop2, .byte 125, .goto (i + 5), .emptyObj]
+    if tabHas tab (.map k t) then [.recurse (.map k t) pv]
+    else
+      -- :256 compileMap, :260 compileMapBody
+      let kc := keyCode k
+      let u := pc + 8 + kc.length
+      let v1 := code co lib (.map k t :: tab) (u + 2) (sp + 2) false t
+      let j := u + 2 + v1.length
+      let v := j + 3 + kc.length
+      let v2 := code co lib (.map k t :: tab) (v + 2) (sp + 2) false t
+      let i := v + 2 + v2.length + 1
+      [.isNil (i + 4), .byte 123, .isZeroMap (i + 2), .save false, .mapIter (.map k t), .save false, .mapCheckKey i, .mapWriteKey u] ++ kc ++
+        [.byte 58, .mapValueNext] ++ v1 ++ [.mapCheckKey i, .byte 44, .mapWriteKey v] ++ kc ++ [.byte 58, .mapValueNext] ++ v2 ++
+        [.goto j, .mapStop, .drop2, .byte 125, .goto (i + 5), .emptyObj]
   | .st fs =>
-    -- :434 compileStruct: out of line when nested too deep, the program too long or the struct too wide
-    if sp ≥ co.maxInlineDepth || pc ≥ maxIlbuf || (sp > 0 && fs.length ≥ maxFields) then [.recurse (.st fs) pv]
+    if tabHas tab (.st fs) then [.recurse (.st fs) pv]
+    -- :434 compileStruct
+    else if cutOff co pc sp fs.length then [.recurse (.st fs) pv]
     else
       match keepList fs with
       | none => [.unsupported (.st fs)]
       | some ks =>
         -- :449 compileStructBody
-        [.byte 123, .save false, .condSet] ++ codeFields co sp pv fs ks (offsets fs 0) 0 (pc + 3) ++ [.drop, .byte 125]
+        [.byte 123, .save false, .condSet] ++ codeFields co lib (.st fs :: tab) sp pv fs ks (offsets fs 0) 0 (pc + 3) ++ [.drop, .byte 125]
 /-- the loop of compileStructBody (compiler.go:457-515) over the declared fields, `ks` the resolver's
     verdict on each, `offs` their offsets, `i` the selector of the next one -/
-def codeFields (co : COpts) (sp : Nat) (pv : Bool) :
+def codeFields (co : COpts) (lib : LibCode) (tab : List GoType) (sp : Nat) (pv : Bool) :
     List (String × Option Bytes × GoType) → List (Option Field) → List Nat → Nat → Nat → Program
   | (_, _, t) :: fs, k :: ks, off :: offs, i, pc =>
-    let cv := fun pc' => code co pc' (sp + 1) pv t
+    let cv := fun pc' => code co lib tab pc' (sp + 1) pv t
     let ce := fun pc' => match t with
-      | .ptr e => code co pc' (sp + 1) pv e
+      | .ptr e => code co lib tab pc' (sp + 1) pv e
       | _ => []
     let here : Program :=
       match k with
       | none => []
       | some f => fieldCode co f t cv ce i off pc
-    here ++ codeFields co sp pv fs ks offs (i + 1) (pc + here.length)
+    here ++ codeFields co lib tab sp pv fs ks offs (i + 1) (pc + here.length)
   | _, _, _, _, _ => []
 end
 
+def libNames : List String := ["Rec", "Tree"]
+
+/-- how many named types are not being compiled yet -/
+def libLeft (tab : List GoType) : Nat := (libNames.filter fun n => !tabHas tab (.lib n)).length
+
+/-- compileStruct for a named struct type whose name has just been put into `tab` (compileRec, compiler.go:176), with
+    `k` levels of unfolding of further names left -/
+def libK (co : COpts) : Nat → LibCode
+  | 0 => fun _ _ _ _ _ => none
+  | k + 1 => fun tab n pc sp pv =>
+    (libStruct n).map fun fs =>
+      if cutOff co pc sp fs.length then [Instr.recurse (.lib n) pv]
+      else
+        match keepList fs with
+        | none => [Instr.unsupported (.lib n)]
+        | some ks =>
+          [Instr.byte 123, Instr.save false, Instr.condSet] ++
+            codeFields co (libK co k) tab sp pv fs ks (offsets fs 0) 0 (pc + 3) ++ [Instr.drop, Instr.byte 125]
+
 /-- `Compiler.Compile` (compiler.go:123): `compileOne(&ret, 0, vt, pv)` on an empty program -/
-def compile (co : COpts) (T : GoType) (pv : Bool) : Program := code co 0 0 pv T
+def compile (co : COpts) (T : GoType) (pv : Bool) : Program := code co (libK co libNames.length) [] 0 0 pv T
 
 mutual
 /-- the `p.Tag(sp)` calls (compilePtrBody, compileMapBody `sp+1`, compileSliceArray, compileArray,
@@ -205,9 +269,10 @@ def tagOKF (co : COpts) (sp : Nat) : List (String × Option Bytes × GoType) →
 end
 
 mutual
-/-- no named type inside (library types with methods, json.RawMessage): the part of the universe `compile` speaks about -/
+/-- no callback type inside (library types with methods, json.RawMessage): the part of the universe `compile` speaks about -/
 def noLib : GoType → Bool
-  | .lib _ | .raw => false
+  | .lib n => libNames.contains n
+  | .raw => false
   | .sl t | .arr _ t | .ptr t => noLib t
   | .map k t => noLib k && noLib t
   | .st fs => noLibF fs
